@@ -34,6 +34,7 @@ r16=rows(16); n16,m16=len(r16),sum('missed at first' in x for x in r16)
 r17=rows(17); n17,m17=len(r17),sum('missed at first' in x for x in r17)
 r18=rows(18); n18,m18=len(r18),sum('missed at first' in x for x in r18)
 r19=rows(19); n19,m19=len(r19),sum('missed at first' in x for x in r19)
+r20=rows(20); n20,m20=len(r20),sum('missed at first' in x for x in r20)
 def nm(r): return len(r),sum('missed at first' in x for x in r)
 (n1,m1),(n2,m2),(n3,m3),(n4,m4),(n5,m5),(n6,m6),(n7,m7),(n8,m8),(n9,m9)=[nm(r) for r in (r1,r2,r3,r4,r5,r6,r7,r8,r9)]
 own=open('/verif/mutants/RESULTS.txt').read().strip().split('\n')
@@ -236,11 +237,13 @@ difference the checks do not demand on purpose, and is filed as not adopted.
 mutation campaign (8.3), each of which had been read as not breaking a property, were handed in
 five groups to fresh sub-agents together with the property texts of the files concerned, with the
 task of proving the reading wrong - a demonstration that fails with the mutant and passes without.
-Of 219 survivors they claimed %d: all undetected as the checks stood, by construction. Two (a read
+Of 219 survivors they claimed %d (their verdicts on all of them are kept in `mutants/audit/`):
+all undetected as the checks stood, by construction. Two (a read
 one byte past the end of a four-byte extension block, which succeeds whenever the slice has spare
 capacity) showed a weakness of every harness at once - inputs were copied with `append`, which
 rounds the capacity up - and `clone` now returns exactly as much capacity as length. One set
-reserved bits the receiver has to ignore. One is about DON values, which the unchanged library
+reserved bits the receiver has to ignore. One made an AV1 packet one byte too long at the single
+MTU at which the space left for a length-prefixed element is exactly 16384 bytes. One is about DON values, which the unchanged library
 does not get right either and the text does not demand, and is filed as not adopted.
 
 | seed | property | detected by (scenario / clause) |
@@ -254,6 +257,15 @@ detected as the checks stood, %d missed at first.
 | seed | property | detected by (scenario / clause) |
 |---|---|---|
 '''%(n19,n19-m19,m19)+'\n'.join(r19)+'''
+
+**Round 20** (%d changes; another new brief: two features that are each right alone and wrong
+together - CSRC list and extension, reused receiver and the shorter form, DONL and
+SkipAggregation and a unit of MTU bytes, a wrapped picture id below 128): %d detected as the
+checks stood, %d missed at first.
+
+| seed | property | detected by (scenario / clause) |
+|---|---|---|
+'''%(n20,n20-m20,m20)+'\n'.join(r20)+'''
 
 What changed in response, as a rule rather than case by case: every property whose code handles a
 length, a count or an index now has a *scale* scenario next to its small-scope product, in which
